@@ -36,6 +36,16 @@ theorem gen_extension_tables :
     Gen.C06RowsTables.ean5CheckDigit.asNatList? = some refExt.ean5Check ∧
     countries? Gen.C06RowsTables.countries = some refExt.countries := by decide
 
+/-- the country ranges of the code are well-formed (start ≤ end ≤ 999), ascending and pairwise disjoint, so "the first
+    range containing the prefix" is THE range containing it -/
+def rangesAscending : List (Nat × Nat × List Nat) → Bool
+  | a :: b :: rest => decide (a.1 ≤ a.2.1) && decide (a.2.1 < b.1) && rangesAscending (b :: rest)
+  | [a] => decide (a.1 ≤ a.2.1) && decide (a.2.1 ≤ 999)
+  | [] => true
+
+theorem gen_country_ranges_disjoint :
+    (countries? Gen.C06RowsTables.countries).map rangesAscending = some true := by decide
+
 /-- the shape hypothesis of `upcean_decodeRow_total` / `upcean_multi_decodeRow_total` holds for these tables -/
 theorem gen_tables_wfRow : wfRow OneD.refTables refExt = true := by decide
 
